@@ -66,6 +66,7 @@ _N = 0
 
 class C06(Prop):
     id = "C06"
+    noise_sample = 300
     gen_module = "FsDescrGen"
     judge_module = "FsDescrJudge"
     assumptions = [
